@@ -115,6 +115,66 @@ theorem verdict_exact_reachable {D : Data} (hI : InitConsistent D) (hK : KeysDis
   rw [verdict_exact hI hK hc hi]
   simp only [withinBounds_iff]
 
+/-! ### the property's own oracle: the fresh model at the resulting action set
+
+The property judges a proposal by "the limit would be exceeded *by the resulting action set*".  The value a set
+has is the value of a freshly initialised model to which exactly that set is applied (C01), which is how the
+`catchment-walk` suite computes its ground truth.  These theorems state the verdict and the quoted value against
+that oracle directly (composition of C02's accept theorem with C01's canonical form). -/
+
+/-- the quoted value of a proposal is the value a FRESH model takes at the resulting action set -/
+theorem quoted_value_is_fresh_model_value {D : Data} {s : State} (hI : InitConsistent D)
+    (hK : KeysDistinct D.acts) (hc : Canon D s) {i : Nat} (hi : i < D.acts.length) (v : VarId) :
+    undoableValue (propose D s i) v = total (setAll D (init D) (flipFlag s.flags i)) v := by
+  rw [quoted_value_is_prospective hI hK hc hi v]
+  have hacc := accept_propose_canon hI.facts hK hc hi
+  have hlen : (flipFlag s.flags i).length = D.acts.length := by rw [flipFlag_length, hc.len]
+  have hfresh := setAll_canon hI.facts hK (canon_init hI) (flipFlag s.flags i)
+  have hff := setAll_init_flags hI hK _ hlen
+  have hs := hacc.sameVals hfresh (by rw [hff, accept_flags hc hi])
+  exact (hs.total_eq v).symm
+
+/-- the verdict on a proposal is the validity of a FRESH model at the resulting action set -/
+theorem verdict_is_fresh_model_validity {D : Data} {s : State} (hI : InitConsistent D)
+    (hK : KeysDistinct D.acts) (hc : Canon D s) {i : Nat} (hi : i < D.acts.length) :
+    changeIsValid D (propose D s i) = stateIsValid D (setAll D (init D) (flipFlag s.flags i)) := by
+  unfold changeIsValid stateIsValid
+  apply List.all_congr rfl
+  intro v
+  rw [quoted_value_is_fresh_model_value hI hK hc hi v]
+
+/-- **in every reachable state, against the fresh-model oracle**: after any conformant history, a proposal is
+rejected iff some limited variable of the fresh model at the resulting set exceeds its maximum, and the value
+quoted for every variable is that model's value -/
+theorem verdict_fresh_model_reachable {D : Data} (hI : InitConsistent D) (hK : KeysDistinct D.acts)
+    (txs : List Tx) {i : Nat} (hi : i < D.acts.length) :
+    (changeIsValid D (propose D (run D txs) i) = false ↔
+      ∃ v m, maxOf D v = some m ∧ total (setAll D (init D) (flipFlag (run D txs).flags i)) v > m) ∧
+    (∀ v, undoableValue (propose D (run D txs) i) v
+            = total (setAll D (init D) (flipFlag (run D txs).flags i)) v) := by
+  have hc := canon_of_history hI hK txs
+  refine ⟨?_, quoted_value_is_fresh_model_value hI hK hc hi⟩
+  rw [rejected_iff_exceeds hI hK hc hi]
+  constructor
+  · rintro ⟨v, m, hm, h⟩
+    refine ⟨v, m, hm, ?_⟩
+    rw [← quoted_value_is_fresh_model_value hI hK hc hi v, quoted_value_is_prospective hI hK hc hi v]
+    exact h
+  · rintro ⟨v, m, hm, h⟩
+    refine ⟨v, m, hm, ?_⟩
+    rw [← quoted_value_is_prospective hI hK hc hi v, quoted_value_is_fresh_model_value hI hK hc hi v]
+    exact h
+
+/-- the converse reading of `lowering_never_rejected`: a rejected change that raises no limited variable can
+only come from a state that was already over a limit (the valid-start hypothesis cannot be dropped: example below) -/
+theorem rejected_lowering_only_from_invalid {D : Data} {s : State} (hI : InitConsistent D)
+    (hK : KeysDistinct D.acts) (hc : Canon D s) {i : Nat} (hi : i < D.acts.length)
+    (hlow : ∀ v, (maxOf D v).isSome = true → total (accept (propose D s i)) v ≤ total s v)
+    (hrej : changeIsValid D (propose D s i) = false) : stateIsValid D s = false := by
+  cases hv : stateIsValid D s with
+  | false => rfl
+  | true => rw [lowering_never_rejected hI hK hc hi hv hlow] at hrej; cases hrej
+
 /-! Non-vacuity / sanity (tests, labelled as such): the dataset of C01 with an implementation-cost
 limit of 1300.  In the state {0} (cost 1234.57): activating action 2 (99.00) is rejected quoting
 1333.57; activating action 1 (5.01) is valid; de-activating action 0 (lowering) is valid. -/
@@ -129,5 +189,22 @@ example : stateIsValid exLim exLimS = true ∧ total exLimS .ic = 123457/100 ∧
     undoableValue (propose exLim exLimS 2) .ic = 133357/100 ∧
     changeIsValid exLim (propose exLim exLimS 1) = true ∧
     changeIsValid exLim (propose exLim exLimS 0) = true := by decide +kernel
+
+/-- the fresh-model oracle on the same proposals: the set {0,2} costs 1333.57 on a fresh model -/
+example : total (setAll exLim (init exLim) (flipFlag exLimS.flags 2)) .ic = 133357/100 ∧
+    stateIsValid exLim (setAll exLim (init exLim) (flipFlag exLimS.flags 2)) = false ∧
+    stateIsValid exLim (setAll exLim (init exLim) (flipFlag exLimS.flags 1)) = true := by decide +kernel
+
+/-- **the valid-start hypothesis of `lowering_never_rejected` is necessary.**  The state {0,1,2} (cost 1338.58,
+over the limit of 1300; reachable through `SetManagementAction`, which does not consult the limit) is invalid;
+de-activating action 1 lowers the cost to 1333.57, which is still over the limit: the lowering change IS rejected
+(Go does the same: the verdict judges the resulting state, not the direction). -/
+def exLimOver : State := run exLim [.setAll [true, true, true]]
+
+example : stateIsValid exLim exLimOver = false ∧ total exLimOver .ic = 133858/100 ∧
+    change (propose exLim exLimOver 1) .ic = -501/100 ∧
+    total (accept (propose exLim exLimOver 1)) .ic ≤ total exLimOver .ic ∧
+    changeIsValid exLim (propose exLim exLimOver 1) = false ∧
+    undoableValue (propose exLim exLimOver 1) .ic = 133357/100 := by decide +kernel
 
 end Crem.Catchment
